@@ -24,8 +24,10 @@ Candidates(Bs, k) ==
     IF i = 0 THEN {1}
     ELSE {i} \cup (IF i < Len(Bs) /\ k > Bs[i].rows THEN {i + 1} ELSE {})
 
-\* R = [rrs, ser] is boundary b: same content, serial not behind it
-IsBoundary(R, b) == R.rrs = b.rrs /\ SerialGE(R.ser, b.ser)
+\* R = [rrs, ser] is boundary b: the same zone, SOA serial included ("reconstructs the zone as of a
+\* boundary"; a recovery that moved the serial would also make later updates answer with other
+\* serials than an uninterrupted server)
+IsBoundary(R, b) == R.rrs = b.rrs /\ R.ser = b.ser
 
 \* "The SOA serial after recovery is never lower than any serial the server had answered with":
 \* the serials a client can have seen are those of the boundaries reached; in a server whose
